@@ -607,3 +607,39 @@ pub fn zobrist(p: &Pos, k: &Keys) -> u64 {
     }
     h ^ (k.side & mask(p.stm == 1))
 }
+
+/// XOR of the keys of the features present in exactly one of `a` and `b`.
+/// (`zobrist(a) ^ zobrist(b) == zobrist_delta(a, b)`: lemma `c10_delta_lemma`.)
+pub fn zobrist_delta(a: &Pos, b: &Pos, k: &Keys) -> u64 {
+    let mut h = 0u64;
+    let mut c = 0;
+    while c < 2 {
+        let mut i = 0;
+        while i < 6 {
+            let d = (a.pc[i] & a.col[c]) ^ (b.pc[i] & b.col[c]);
+            let mut s = 0;
+            while s < 64 {
+                h ^= k.piece[c][i][s] & mask((d >> s) & 1 != 0);
+                s += 1;
+            }
+            i += 1;
+        }
+        let mut w = 0;
+        while w < 2 {
+            let (fa, fb) = (a.castle[c][w], b.castle[c][w]);
+            let mut j = 0;
+            while j < 8 {
+                h ^= k.castle[c][w][j] & mask((fa == j as u8) != (fb == j as u8));
+                j += 1;
+            }
+            w += 1;
+        }
+        c += 1;
+    }
+    let mut j = 0;
+    while j < 8 {
+        h ^= k.ep[j] & mask((a.ep == j as u8) != (b.ep == j as u8));
+        j += 1;
+    }
+    h ^ (k.side & mask(a.stm != b.stm))
+}
